@@ -1,49 +1,56 @@
 #!/usr/bin/env python3
 """Maintenance helper: run the claimed checks against every confirmed seeded change.
-For each /verif/seeded/<name>: git -C /repo apply patch.diff; run the property's check (and, with --all, every claimed
-check) without writing evidence; git -C /repo checkout -- . ; the outcome is stored in meta.json ('detection').
+For each /verif/seeded/<name>: the patch is applied *in memory* (source overlays, /repo is not touched); the property's check
+(and, with --all, every claimed check) runs without writing evidence; the outcome is stored in meta.json ('detection').
 usage: python3-vt tools/run_seeded.py [--all] [name ...]"""
-import json, os, subprocess, sys
+import concurrent.futures as cf
+import json, os, sys
 sys.path.insert(0, os.path.dirname(os.path.dirname(os.path.abspath(__file__))))
-from kdverif.__main__ import run_check
 
 args = [a for a in sys.argv[1:] if not a.startswith("--")]
 ALL = "--all" in sys.argv
 claimed = [c["property_id"] for c in json.load(open("/verif/MANIFEST.json"))["checks"]]
 root = "/verif/seeded"
 names = args or sorted(os.listdir(root))
-assert subprocess.run("git -C /repo status --porcelain --untracked-files=no", shell=True, capture_output=True,
-                      text=True).stdout.strip() == "", "/repo not clean"
-summary = []
-for name in names:
+
+
+def one(name):
+    from kdverif.__main__ import run_check
+    from kdverif.patching import overlays_from_patch
     d = os.path.join(root, name)
     meta = json.load(open(os.path.join(d, "meta.json")))
     prop = meta["property"]
-    r = subprocess.run(["git", "-C", "/repo", "apply", os.path.join(d, "patch.diff")], capture_output=True, text=True)
-    if r.returncode != 0:
-        print(name, "PATCH DOES NOT APPLY", r.stderr[:200])
-        summary.append((name, prop, "patch-does-not-apply", []))
-        continue
-    try:
-        det = {}
-        for p in (claimed if ALL else [prop]):
-            if p not in claimed:
-                det[p] = {"status": "not-claimed"}
-                continue
-            rc, rep = run_check(p, "quick", write=False, quiet=True)
-            det[p] = {"rc": rc, "violations": [f"{o.rule} | {o.func} | {o.construct} :: {o.detail[:200]}" for o in rep.fresh],
-                      "errors": rep.errors}
-    finally:
-        subprocess.run("git -C /repo checkout -- .", shell=True)
+    overlays = overlays_from_patch("/repo", open(os.path.join(d, "patch.diff")).read())
+    if overlays is None:
+        return name, prop, "patch-does-not-apply", {}, []
+    det = {}
+    for p in (claimed if ALL else [prop]):
+        if p not in claimed:
+            det[p] = {"status": "not-claimed"}
+            continue
+        rc, rep = run_check(p, "quick", overlays=overlays, write=False, quiet=True)
+        det[p] = {"rc": rc, "violations": [f"{o.rule} | {o.func} | {o.construct} :: {o.detail[:200]}" for o in rep.fresh],
+                  "errors": rep.errors}
     own = det.get(prop, {})
     status = "caught" if own.get("rc") == 1 else ("analysis-error" if own.get("rc") == 2 else
                                                    ("not-claimed" if own.get("status") else "missed"))
     others = [p for p, v in det.items() if p != prop and v.get("rc") == 1]
+    if not ALL:
+        # keep the cross-detections recorded by an earlier --all run
+        old = meta.get("detection", {}).get("by_property_check", {})
+        for p, v in old.items():
+            det.setdefault(p, v)
+        others = [p for p, v in det.items() if p != prop and v.get("rc") == 1]
     meta["detection"] = {"status": status, "by_property_check": det, "also_flagged_by": others}
     json.dump(meta, open(os.path.join(d, "meta.json"), "w"), indent=1)
-    summary.append((name, prop, status, own.get("violations", [])[:3]))
-    print(f"{name}: {status}" + (f" (+{','.join(others)})" if others else ""))
-    for v in own.get("violations", [])[:3]:
-        print("    ", v[:230])
-    for e in own.get("errors", [])[:2]:
-        print("    ERR", e[:200])
+    return name, prop, status, own, others
+
+
+if __name__ == "__main__":
+    with cf.ProcessPoolExecutor(max_workers=min(14, len(names))) as ex:
+        for name, prop, status, own, others in ex.map(one, names):
+            print(f"{name}: {status}" + (f" (+{','.join(others)})" if others else ""))
+            for v in own.get("violations", [])[:3]:
+                print("    ", v[:230])
+            for e in own.get("errors", [])[:2]:
+                print("    ERR", e[:200])
